@@ -281,6 +281,93 @@ theorem activate_call_runs_with_its_own_values (params rets : List Param) (ua : 
     have := (hag i hi).1
     rwa [specVal_startArgs] at this
 
+/-- **One `activate` call in a history**: whatever instances of the flow exist (each holding a value for
+    every parameter), the StartFlow event of a well-formed `activate f(..)` from a live flow other than
+    `f` succeeds; afterwards every instance still holds a value for every parameter, every earlier
+    instance is still there with the arguments it was started with, and SOME instance runs with the
+    values the statement gives this call (`Serves`). -/
+theorem activate_step_serves (params rets : List Param) (flow : String) (src : Source) (hlive : src.done = false)
+    (hother : (flow == src.flowId) = false) (l : List ActInst) (hl : ∀ a ∈ l, HoldsAll params a.arguments)
+    (c : ActCall) (h : WellFormedCall params rets c.ua c.k)
+    (hnoclash : ∀ i (hi : i < params.length), i < c.k → lookup (argKey params[i].name) c.ua = none) :
+    ∃ l', activateStep flow params rets src l c = .ok l' ∧ (∀ a ∈ l', HoldsAll params a.arguments) ∧
+      (∀ a ∈ l, ∃ a' ∈ l', a'.arguments = a.arguments) ∧ (∃ a' ∈ l', Serves params a' c.ua c.k) := by
+  obtain ⟨d, hd, hcases⟩ := activate_call_runs_with_its_own_values params rets c.ua c.k flow c.uid c.caller h hnoclash l
+    (valOf params) (fun a ha i hi => holdsAll_valOf params a (hl a ha) i hi) src hlive hother
+  rcases hcases with ⟨j, a, rfl, ha, _, hag⟩ | ⟨rfl, _⟩
+  · refine ⟨bump j l, by simp [activateStep, activateStepEv, hd], ?_, fun a0 ha0 => bump_mem j l a0 ha0, ?_⟩
+    · intro a' ha'
+      obtain ⟨a0, h0, e⟩ := mem_bump j l a' ha'
+      rw [e]; exact hl a0 h0
+    · have ham : a ∈ l := List.mem_of_getElem? ha
+      obtain ⟨a', ha', e⟩ := bump_mem j l a ham
+      refine ⟨a', ha', serves_congr params a a' c.ua c.k e fun i hi => ?_⟩
+      exact ⟨_, holdsAll_valOf params a (hl a ham) i hi, Or.inr (hag i hi)⟩
+  · obtain ⟨f0, f, h1, h2, _, h4⟩ := bind_spec_core flow params rets _ c.k
+      (wellFormed_of_call params rets c.ua c.k .activate flow c.uid c.caller h)
+    have hargs : f.arguments = f0.arguments := startFlow_arguments _ f0 f h2
+    have hnew : ∀ i (hi : i < params.length),
+        lookup (argKey params[i].name) f0.arguments = some (specVal c.ua c.k i params[i]) := by
+      intro i hi; rw [← hargs, h4 i hi, specVal_startArgs]
+    refine ⟨l ++ [{ activated := 1, parentAlive := true, parentSameFlow := false, arguments := f0.arguments }],
+      by simp only [activateStep, activateStepEv, hd, h1], ?_, fun a0 ha0 => ⟨a0, by simp [ha0], rfl⟩, ?_⟩
+    · intro a' ha'
+      rcases List.mem_append.1 ha' with hm | hm
+      · exact hl a' hm
+      · simp only [List.mem_singleton] at hm
+        subst hm
+        intro p hp
+        obtain ⟨i, hi, rfl⟩ := List.getElem_of_mem hp
+        simp [hnew i hi]
+    · exact ⟨{ activated := 1, parentAlive := true, parentSameFlow := false, arguments := f0.arguments }, by simp,
+        fun i hi => ⟨_, hnew i hi, Or.inl rfl⟩⟩
+
+/-- **Whole histories** (any number of `activate` calls of one flow, explicit / omitted / equal /
+    different arguments in any order, any instances already running; by induction on the history):
+    every StartFlow event succeeds, and at the end, for EVERY call of the history, some instance of
+    the flow runs with the parameter values the statement gives that call — positional | named |
+    declared default | None, evaluated in the caller (exactly those values for the instance the call
+    created, Python-equal ones when the call was attached to an activation that already ran). -/
+theorem every_activate_call_has_its_instance (params rets : List Param) (flow : String) (src : Source)
+    (hlive : src.done = false) (hother : (flow == src.flowId) = false) :
+    ∀ (cs : List ActCall) (l : List ActInst), (∀ a ∈ l, HoldsAll params a.arguments) →
+    (∀ c ∈ cs, WellFormedCall params rets c.ua c.k ∧
+      ∀ i (hi : i < params.length), i < c.k → lookup (argKey params[i].name) c.ua = none) →
+    ∃ l', activateAll flow params rets src l cs = .ok l' ∧ (∀ a ∈ l, ∃ a' ∈ l', a'.arguments = a.arguments) ∧
+      ∀ c ∈ cs, ∃ a' ∈ l', Serves params a' c.ua c.k
+  | [], l, _, _ => ⟨l, rfl, fun a ha => ⟨a, ha, rfl⟩, by simp⟩
+  | c :: cs, l, hl, hcs => by
+    obtain ⟨hw, hn⟩ := hcs c (by simp)
+    obtain ⟨l1, h1, hl1, hkeep1, a1, ha1, hs1⟩ := activate_step_serves params rets flow src hlive hother l hl c hw hn
+    obtain ⟨l', h2, hkeep2, hserve⟩ := every_activate_call_has_its_instance params rets flow src hlive hother cs l1 hl1
+      (fun c' hc' => hcs c' (by simp [hc']))
+    refine ⟨l', by simp [activateAll, h1, h2], ?_, ?_⟩
+    · intro a ha
+      obtain ⟨a', ha', e⟩ := hkeep1 a ha
+      obtain ⟨a'', ha'', e'⟩ := hkeep2 a' ha'
+      exact ⟨a'', ha'', by rw [e', e]⟩
+    · intro c' hc'
+      rcases List.mem_cons.1 hc' with rfl | hm
+      · obtain ⟨a'', ha'', e⟩ := hkeep2 a1 ha1
+        exact ⟨a'', ha'', serves_congr params a1 a'' c'.ua c'.k e hs1⟩
+      · exact hserve c' hm
+
+/-- the demo history of the seeded change, by evaluation (finite fact): `flow watcher $tag="default" $level=1`,
+    `activate watcher("custom", 7)` then `activate watcher` leaves TWO instances, the second one holding
+    the declared defaults -/
+theorem explicit_then_omitted_history_witness :
+    (match activateAll "watcher" [⟨"tag", some (.lit (.str "default"))⟩, ⟨"level", some (.lit (.int 1))⟩] []
+        { flowId := "main", done := false, activated := 1 } []
+        [{ ua := [(.pos 0, .str "custom"), (.pos 1, .int 7)], k := 2, uid := 1, caller := 0 },
+         { ua := [], k := 0, uid := 2, caller := 0 }] with
+     | .ok [a, b] =>
+       lookup (.name "tag") a.arguments = some (.str "custom") ∧ lookup (.name "level") a.arguments = some (.int 7) ∧
+       lookup (.name "tag") b.arguments = some (.str "default") ∧ lookup (.name "level") b.arguments = some (.int 1)
+     | _ => False) := by
+  simp [activateAll, activateStep, activateStepEv, startDecision, refActivated, isReference, sameParams, paramMatches, startArgs, matchArgs,
+    createFlowInstance, startCtx, bindNamed, bindPos, bindRet, Bind.set, lookup, has, truthy, argKey, reservedNames,
+    Param.dfltVal, eval, pyEq, Val.scalarEq]
+
 /-- non-vacuity of the hypotheses on the running instances: the instance `create_flow_instance`
     makes for `activate f(1)` (`flow f $a $b=2`) holds a value for both parameters -/
 example : ∃ f0, createFlowInstance "f" [⟨"a", none⟩, ⟨"b", some (.lit (.int 2))⟩] []
